@@ -407,6 +407,50 @@ func runC13(r *core.Run) {
 		r.AddEvals(n)
 		r.NTCount(n)
 	}
+	// the ends of float32: huge positive components under ordinary whites (the exact Lab is about
+	// 1e15 and representable: it must come back finite and proportionally right), and subnormal
+	// whites with colours of the same size (finite results; the white itself is (100, 0, 0))
+	{
+		var n int64
+		for _, w := range [][3]float32{c13D50, c13D65} {
+			for _, big := range []float32{1e30, 1e36, 1e38, 3.4028235e38} {
+				for _, in := range [][3]float32{{big, big, big}, {big, big / 2, big / 4}, {big / 3, big, 1}, {1, 0.5, big}, {big, 0, 0}} {
+					lab, pan := c13ToLab(in, w)
+					n++
+					if pan != nil || !finite3(lab.L, lab.A, lab.B) {
+						r.Violate("xyz", "nonfinite/extreme", fmt.Sprintf("ToLAB(%v, white %v) = %v (panic %v); the exact result is finite and far inside float32", in, w, lab, pan), c13Case{Kind: "nonfinite", White: w, In: in})
+						continue
+					}
+					ref := refcolor.XYZToLab(v64(in), v64(w))
+					got := [3]float64{float64(lab.L), float64(lab.A), float64(lab.B)}
+					for i := 0; i < 3; i++ {
+						if !(math.Abs(got[i]-ref[i]) <= 1e-3+2e-6*math.Max(math.Abs(ref[0]), math.Max(math.Abs(ref[1]), math.Abs(ref[2])))) {
+							r.Violate("xyz", "forward/extreme", fmt.Sprintf("ToLAB(%v, white %v) = %v, CIE 1976 definition gives %v", in, w, lab, ref), c13Case{Kind: "forward", White: w, In: in})
+							break
+						}
+					}
+				}
+			}
+			for _, tiny := range []float32{1e-38, 5e-39, 1e-39, 1e-42, 1e-44} {
+				ws := [3]float32{w[0] * tiny, w[1] * tiny, w[2] * tiny}
+				if ws[0] == 0 || ws[1] == 0 || ws[2] == 0 {
+					continue
+				}
+				for _, q := range [][3]float32{{1, 1, 1}, {0.5, 0.25, 0.75}, {0.01, 0.02, 0.005}} {
+					in := [3]float32{ws[0] * q[0], ws[1] * q[1], ws[2] * q[2]}
+					lab, pan := c13ToLab(in, ws)
+					n++
+					if pan != nil || !finite3(lab.L, lab.A, lab.B) {
+						r.Violate("xyz", "nonfinite/subnormal-white", fmt.Sprintf("ToLAB(%v, white %v) = %v (panic %v)", in, ws, lab, pan), c13Case{Kind: "nonfinite", White: ws, In: in})
+					} else if q == [3]float32{1, 1, 1} && !(math.Abs(float64(lab.L)-100) <= 1e-3 && math.Abs(float64(lab.A)) <= 1e-3 && math.Abs(float64(lab.B)) <= 1e-3) {
+						r.Violate("xyz", "forward/subnormal-white", fmt.Sprintf("ToLAB(white, white %v) = %v, want (100, 0, 0)", ws, lab), c13Case{Kind: "forward", White: ws, In: in})
+					}
+				}
+			}
+		}
+		r.AddEvals(n)
+		r.NTCount(n)
+	}
 	// the same colour against different whites back to back (a "last conversion" memo keyed on the
 	// colour alone shows only here)
 	{
